@@ -138,6 +138,8 @@ fn alphabet(name: &str) -> Vec<Op> {
         // disconnect hint around a stale ActiveRequest: used behind a prologue that keeps ActiveRequest(A) alive
         // across a full channel-id cycle so that request B owns A's channel
         "hint" => vec![Ph(0), Ad(0), Ad(1), Pd(0), As(0), As(1), Pr(0), Q(0), Sr(0), Rx(0)],
+        // expired connection with several channels (behind a prologue with two answered requests)
+        "sib" => vec![Ad(0), Sd(0), Pr(0), Pr(1), Rx(0), Pd(0), As(0), Sc(0)],
         // everything (random histories)
         "full" => vec![Cc(0), Cc(1), Cd(0), Cd(1), Sc(0), Sc(1), Sd(0), Sd(1), L(0), L(1), S, Lx, Q(0), Q(1), Qd(0), Qd(1),
                        Pr(0), Pr(1), Pr(2), Pd(0), Pd(1), Pd(2), Ph(0), Rx(0), Rx(1), Sr(0), Sr(1), Sh(0), Sh(1),
